@@ -1,7 +1,7 @@
 """C18 - map iterators stay valid while entries are removed or added."""
-from engine.qb import (AnalysisBroken, abstract_run, estr, unwrap, cval, walk, last_field, fields_of, callee_of,
+from engine.qb import (cmp_forms, cond_cut, Sym, AnalysisBroken, abstract_run, estr, unwrap, cval, walk, last_field, fields_of, callee_of,
                        mentions_var, atoms_of, root_var, TOP)
-from rules.common import field_is, has_call, derives
+from rules.common import field_is, has_call, derives, macro_named
 
 UNITS = ['lib/map.c', 'lib/hashtable.c', 'lib/skiplist.c', 'lib/trie.c']
 DECIDES = ('Decides that every iterator advance references the next node before dropping the current one, that iteration skips '
@@ -11,12 +11,14 @@ RULES = {
     'R1': 'iter_next: the reference on the next node is taken before the current node is dereferenced on every path that returns a key; the exhaustion path dereferences the current node',
     'R2': 'iteration skips dead nodes (refcount == 0 / not alive)',
     'R3': 'where rm defers unlinking to the last dereference and lookups do not test liveness, every iterator exit (iter_free on a parked iterator) drops the node reference',
-    'R4': 'skiplist take-over: predecessor forward array freed only after its contents were copied to the removed node; a taken-over array is not freed again unless tearing down',
+    'R4': 'skiplist: forward arrays are never shared between nodes and always freed with their node; an entry removed while referenced is marked before its list reference is dropped; the iterator follows forward pointers only from unmarked nodes and re-finds its place from a marked one by key, strictly after it',
+    'R8': 'a removed entry that is still allocated for parked iterators is invisible: where rm leaves the node in the search structure (hashtable, trie) it stores a removal marker first, and its own match, get, put and the iterator\'s choice of the next node all test that marker',
+    'R9': 'an entry never moves to another node: no trie node\'s reference count, key or value is copied from another node (iterators hold node pointers)',
     'R5': 'qb_map_foreach frees its iterator on every path; iter_create starts unparked or referenced',
     'R6': 'iter_create stores no unreferenced node pointer in the iterator: every node-pointer field is NULL, the map header (never freed), or referenced before the function returns',
     'R7': 'a node that iterators may be parked on stays linked while referenced: where the advance follows the parked node\'s own links (hashtable), the node is unlinked only at its last dereference (in the destroy function reached with refcount 0) or at map teardown',
 }
-FLOORS = {'R1': 6, 'R2': 3, 'R3': 2, 'R4': 4, 'R5': 2, 'R6': 4, 'R7': 2}
+FLOORS = {'R1': 6, 'R2': 3, 'R3': 2, 'R4': 6, 'R5': 2, 'R6': 4, 'R7': 2, 'R8': 8, 'R9': 1}
 
 IT = {
     'hashtable': dict(next='hashtable_iter_next', free='hashtable_iter_free', deref='hashtable_node_deref', node='hash_node',
@@ -46,6 +48,8 @@ def run(ctx):
     r5(ctx)
     r6(ctx)
     r7(ctx)
+    r8(ctx)
+    r9(ctx)
 
 
 def r1(ctx, name, m):
@@ -194,38 +198,79 @@ def r3(ctx, name, m):
 
 
 def r4(ctx):
+    """skiplist: a removed node that iterators are still positioned on must never be advanced from through links that can go
+    stale.  Two repairs meet that: (a) as the tree does it now - the node is marked and the iterator re-finds its place by key,
+    forward arrays are never shared; (b) every node the stale links can lead to is kept allocated (pinned) until the removed node
+    is destroyed.  What cannot meet it is sharing one forward array between two nodes without tracking the sharing (D24)."""
     prog = ctx.prog
-    f = prog.fn('skiplist_rm')
-    frees = [ev for ev in f.calls('free') if field_is(ev.args[0], 'forward', 'skiplist_node')]
-    if len(frees) != 1:
-        raise AnalysisBroken('skiplist_rm: forward-array frees = %d' % len(frees))
-    fr = frees[0]
-    owner = root_var(fr.args[0])['n']
-    copies = [ev for ev in f.events('STORE') if unwrap(ev.lhs).get('k') == 'idx' and field_is(unwrap(ev.lhs)['b'], 'forward') and
-              ev.rhs is not None and unwrap(ev.rhs).get('k') == 'idx' and field_is(unwrap(ev.rhs)['b'], 'forward') and
-              root_var(ev.rhs) and root_var(ev.rhs)['n'] == owner and root_var(ev.lhs)['n'] != owner]
-    ctx.check('R4', 'copy-before-free', bool(copies) and not any(f.may_follow(fr, c) for c in copies) and any(f.may_follow(c, fr) for c in copies), fr,
-              'the predecessor\'s forward pointers are copied to the removed node before the array is freed',
-              'the predecessor\'s forward array is freed before (or without) being copied: parked iterators step through freed memory')
-    repoint = [ev for ev in f.stores(field='forward', rec='skiplist_node') if root_var(ev.lhs)['n'] == owner and unwrap(ev.lhs).get('k') == 'mem']
-    ctx.check('R4', 'repoint-after-free', bool(repoint) and all(f.ev_dominates(fr, r) for r in repoint), repoint[0] if repoint else fr,
-              'the predecessor is repointed to the taken-over array right after the free', 'the predecessor keeps a freed forward array')
-    mark = [ev for ev in f.stores(field='level', rec='skiplist_node') if not field_is(ev.lhs, 'level', 'skiplist')]
-    ctx.check('R4', 'taken-over-marked', bool(mark) and any(f.ev_dominates(m_, fr) or f.may_follow(m_, fr) or f.may_follow(fr, m_) for m_ in mark), mark[0] if mark else fr,
-              'the removed node is marked as not owning its forward array', 'the removed node is not marked: its destroy frees the array the predecessor now uses')
+    rm = prog.fn('skiplist_rm')
+    # 1. a node's forward array belongs to that node alone
+    shares = []
+    for f in prog.all_fns():
+        if not f.file.endswith('skiplist.c'):
+            continue
+        for ev in f.stores(field='forward', rec='skiplist_node'):
+            if unwrap(ev.lhs).get('k') == 'mem' and ev.rhs is not None and any(n.get('k') == 'mem' and n.get('f') == 'forward' and n.get('rec') == 'skiplist_node' for n in walk(ev.rhs)):
+                shares.append((f, ev))
+    ctx.check('R4', 'forward-array-never-shared', not shares, shares[0][1] if shares else rm,
+              'no node is given another node\'s forward array',
+              'a node is repointed to another node\'s forward array: the array is then freed with whichever of the two nodes goes first while the other '
+              '(a removed node an iterator is positioned on, or the list header) still reads it')
     d = prog.fn('skiplist_node_destroy')
     ff = [ev for ev in d.calls('free') if field_is(ev.args[0], 'forward', 'skiplist_node')]
     if len(ff) != 1:
         raise AnalysisBroken('skiplist_node_destroy: forward frees = %d' % len(ff))
+    nf = [ev for ev in d.calls('free') if estr(ev.args[0]) == d.params[0]['n']]
+    ok = bool(nf) and all(d.ev_dominates(ff[0], x) for x in nf)
+    ctx.check('R4', 'destroy-frees-own-array', ok, ff[0], 'a node frees its own forward array whenever it is freed', 'a node can be freed without its forward array (or the array is freed under a condition): leak / stale sharing protocol')
+    # 2. rm marks a node that stays referenced
+    marks = [ev for ev in rm.stores(field='level', rec='skiplist_node')]
+    LEVEL_MIN = 0
 
-    def owns(a, fb):
-        return (field_is(a.l, 'level', 'skiplist_node') and a.op in ('>=', '>')) or (field_is(a.l, 'level', 'skiplist') and a.op in ('<', '<='))
-    ctx.check('R4', 'destroy-skips-taken-over-array', d.uncut_path(ff[0], owns) is None, ff[0],
-              'a node frees its forward array only if it still owns it (or at teardown)', 'a node frees a forward array that was taken over by its predecessor')
-    # splice loop precedes the take-over
-    spl = [ev for ev in f.events('STORE') if unwrap(ev.lhs).get('k') == 'idx' and field_is(unwrap(ev.lhs)['b'], 'forward') and ev not in copies]
-    ctx.check('R4', 'splice-before-takeover', bool(spl) and all(not f.may_follow(c, s) for c in copies for s in spl), spl[0] if spl else f,
-              'the node is spliced out before its forward pointers are overwritten with the predecessor\'s', 'splice happens after the take-over copy')
+    def referenced(a, fb):
+        return field_is(a.l, 'refcount', 'skiplist_node') and ((a.op == '>' and a.rc == 1) or (a.op == '>=' and a.rc == 2))
+    deref = list(rm.calls('skiplist_node_deref'))
+    ok = bool(marks) and bool(deref) and all(cval(unwrap(mk.rhs)) is not None and cval(unwrap(mk.rhs)) < LEVEL_MIN for mk in marks) and \
+        all(rm.may_follow(mk, deref[0]) for mk in marks)
+    # every path on which the node stays referenced passes a mark: block edges that say refcount <= 1
+    if ok:
+        def only_referenced(fb, t, lab):
+            if fb.cond is None or lab not in (True, False):
+                return True
+            return not any(field_is(a.l, 'refcount', 'skiplist_node') and ((a.op == '<=' and a.rc == 1) or (a.op == '<' and a.rc == 2)) for a in atoms_of(fb.cond, lab))
+        splice = [ev for ev in rm.events('STORE') if unwrap(ev.lhs).get('k') == 'idx' and field_is(unwrap(ev.lhs)['b'], 'forward')]
+        if not splice:
+            raise AnalysisBroken('skiplist_rm: splice store not found')
+        hits, _e, _n = rm.search(('after', splice[-1]), goal=lambda ev: ev.d is deref[0].d, stop=lambda ev: any(ev.d is mk.d for mk in marks), edge_filter=only_referenced)
+        ok = not hits
+    ctx.check('R4', 'removed-node-marked-while-referenced', ok, marks[0] if marks else rm,
+              'an entry removed while iterators are positioned on it is marked as removed (level below the minimum) before its list reference is dropped',
+              'an entry removed under an iterator is not marked: the iterator would advance through the stale forward pointers of a node that is off the list')
+    # 3. the iterator never follows the links of a marked node
+    nx = prog.fn('skiplist_iter_next')
+    follow = [ev for ev in nx.calls('skiplist_node_next')]
+    if not follow:
+        raise AnalysisBroken('skiplist_iter_next: no skiplist_node_next call')
+
+    def not_removed(a, fb):
+        return field_is(a.l, 'level', 'skiplist_node') and ((a.op == '>=' and a.rc == LEVEL_MIN) or (a.op == '>' and a.rc == LEVEL_MIN - 1))
+    ok = all(nx.uncut_path(ev, not_removed) is None for ev in follow)
+    ctx.check('R4', 'iterator-does-not-follow-removed-links', ok, follow[0],
+              'skiplist_iter_next follows forward pointers only from a node that is still on the list',
+              'skiplist_iter_next follows the forward pointers of a removed node: they are stale (the successor may be gone)')
+    # ... and continues by key instead
+    alt = [ev for ev in nx.events('CALL') if ev.callee not in ('skiplist_node_next', 'skiplist_node_deref') and any(
+        n.get('k') == 'mem' and n.get('f') == 'key' and n.get('rec') == 'skiplist_node' for a in ev.args for n in walk(a))]
+    ctx.check('R4', 'removed-position-refound-by-key', bool(alt), alt[0] if alt else nx,
+              'from a removed node the iterator continues with %s(.., key)' % (alt[0].callee if alt else ''),
+              'skiplist_iter_next has no way to continue from a removed node')
+    if alt:
+        g = prog.fn(alt[0].callee)
+        # the re-lookup advances while key <= position (strictly greater keys only are returned: nothing twice)
+        cmpb = [bk for bk in g.blocks.values() if bk.cond is not None and has_call(bk.cond, 'strcmp')]
+        ok = bool(cmpb) and all(any(o in ('<=',) and cval(unwrap(r)) == 0 and callee_of(unwrap(l)) == 'strcmp' for (l, o, r) in cmp_forms(bk.cond)) or
+                                 any(o in ('>',) and cval(unwrap(r)) == 0 and callee_of(unwrap(l)) == 'strcmp' for (l, o, r) in cmp_forms(bk.cond)) for bk in cmpb)
+        ctx.check('R4', 'refind-is-strictly-after', ok, g, 'the re-lookup skips every key that does not sort after the removed position', 'the re-lookup can return the removed position\'s own key or an earlier one again')
 
 
 def r5(ctx):
@@ -322,3 +367,123 @@ def r7(ctx):
         ctx.check('R7', 'hashtable:unlink-only-at-last-deref:%s' % f.name, ok, ev, 'the node leaves its bucket list only when its last reference is dropped',
                   'a hash node is unlinked while iterators may be parked on it (%s): the advance then follows stale links into freed nodes' % why)
     ctx.check('R7', 'hashtable:unlink-sites', True, sites[0][1], '%d unlink site(s)' % len(sites), '')
+
+
+def r8(ctx):
+    prog = ctx.prog
+    sites = {
+        'hashtable': dict(rm='hashtable_rm_with_hash'),
+        'trie': dict(rm='trie_rm'),
+    }
+    for name, cfg in sites.items():
+        m = IT[name]
+        if _rm_unlinks_directly(prog, name, m):
+            ctx.ok('R8', '%s:rm-unlinks' % name, prog.fn(cfg['rm']), 'rm takes the node out of the search structure itself')
+            continue
+        rm = prog.fn(cfg['rm'])
+        rec = m['node']
+        derefs = list(rm.calls(m['deref']))
+        if not derefs:
+            raise AnalysisBroken('%s: no dereference' % cfg['rm'])
+        # marker: a field of the node stored with a non-zero constant before the dereference
+        marks = [ev for ev in rm.events('STORE') if last_field(ev.lhs) and last_field(ev.lhs)[0] == rec and cval(unwrap(ev.rhs)) not in (0, None) and
+                 ev.d['op'] == '=' and any(rm.ev_dominates(ev, d) for d in derefs)]
+        if not marks:
+            ctx.check('R8', '%s:rm-marks-removed' % name, False, derefs[0], '',
+                      '%s drops the map\'s reference but leaves the node findable: while an iterator is positioned on the entry a second remove '
+                      'succeeds too (count goes down twice, the iterator\'s reference is dropped under it), get still returns it' % cfg['rm'])
+            continue
+        fld = last_field(marks[0].lhs)[1]
+        ctx.check('R8', '%s:rm-marks-removed' % name, True, marks[0], 'rm stores %s.%s before dropping the map\'s reference' % (rec, fld), '')
+
+        def unmarked(a, fb, fld=fld, rec=rec):
+            return field_is(a.l, fld, rec) and a.op == '==' and a.rc == 0
+        # rm's own match
+        ctx.check('R8', '%s:rm-needs-unmarked' % name, all(rm.uncut_path(d, unmarked) is None for d in derefs), derefs[0],
+                  'rm only matches an entry that is not marked removed', 'rm matches an entry that was already removed: it succeeds twice for one insertion')
+        if name == 'hashtable':
+            # every place that accepts a node because its key compares equal also requires it to be unmarked
+            n_match = 0
+            for f in prog.all_fns():
+                if not f.file.endswith('hashtable.c'):
+                    continue
+                for bk in f.blocks.values():
+                    if bk.cond is None or not has_call(bk.cond, 'strcmp'):
+                        continue
+                    for (t, lab) in bk.succs:
+                        if lab not in (True, False):
+                            continue
+                        if any(a.op == '==' and a.rc == 0 and callee_of(unwrap(a.l)) == 'strcmp' for a in atoms_of(bk.cond, lab)):
+                            n_match += 1
+                            ok = cond_cut(bk.cond, lab, lambda a: unmarked(a, bk)) or any(unmarked(a, bk) for (a, _e) in f.guards(bk.id))
+                            ctx.check('R8', 'hashtable:%s:key-match-needs-unmarked' % f.name, ok, '%s:%d (%s)' % (f.file, bk.term_ln, f.name),
+                                      'a node is accepted for a key only if it is not marked removed',
+                                      '%s accepts a node by key alone: an entry that was removed (and is only kept for the iterators positioned on it) is found again' % f.name)
+            if n_match < 3:
+                raise AnalysisBroken('hashtable: only %d key matches found (lookup, rm, put expected)' % n_match)
+            nx = prog.fn(m['next'])
+            parks = [ev for ev in nx.events() if _is_inc(ev, m)]
+            if not parks:
+                raise AnalysisBroken('hashtable_iter_next: no reference taken')
+            bad = [x for x in parks if nx.uncut_path(x, unmarked) is not None]
+            ctx.check('R8', 'hashtable:iterate-skips-removed', not bad, bad[0] if bad else parks[0], 'the iterator does not park on an entry marked removed',
+                      'a second iterator returns an entry that has been removed')
+        else:
+            g = prog.fn('trie_get')
+            tg = [r for r in g.returns() if r.e is not None and last_field(unwrap(r.e)) == (rec, 'value')]
+            if not tg:
+                raise AnalysisBroken('trie_get: value return not found')
+            ctx.check('R8', 'trie:get-skips-removed', all(g.uncut_path(x, unmarked) is None for x in tg), tg[0], 'get does not return the value of an entry marked removed',
+                      'get still returns the value of an entry that has been removed')
+            # put on a marked node: an insertion (marker cleared, reference taken, count raised), not a replacement
+            pf = prog.fn('trie_put')
+            nodev = [st.d['var'] for st in pf.events('DECL') if st.d.get('init') is not None and callee_of(unwrap(st.d['init'])) == 'trie_insert']
+            if len(nodev) != 1:
+                raise AnalysisBroken('trie_put: the inserted node is not a single local')
+            mk = '%s->%s' % (nodev[0], fld)
+            olds = [st.d['var'] for st in pf.events('DECL') if st.d.get('init') is not None and last_field(unwrap(st.d['init'])) == (rec, 'value')]
+            visits, _t = abstract_run(pf, {mk: 1, nodev[0]: Sym('node')} if False else {mk: 1}, tracked={mk} | set(olds))
+            calls = [ev for (ev, env) in visits if ev.kind == 'CALL']
+            replaced = [ev for ev in calls if any(macro_named(a, 'QB_MAP_NOTIFY_REPLACED') for a in ev.args)]
+            refs = [ev for ev in calls if ev.callee == 'trie_node_ref']
+            cleared = [ev for (ev, env) in visits if ev.kind == 'STORE' and last_field(ev.lhs) == (rec, fld) and cval(unwrap(ev.rhs)) == 0]
+            ctx.check('R8', 'trie:put-on-removed-is-an-insertion', bool(refs) and bool(cleared) and not replaced, pf,
+                      'put on an entry marked removed clears the mark, takes the map\'s reference and does not report a replacement',
+                      'put on an entry that was removed (kept for parked iterators) %s: the entry disappears again when the iterator moves on' % (
+                          'is treated as a replacement' if replaced else 'does not take the map\'s reference back / clear the mark'))
+            nn = prog.fn('trie_node_next')
+            allp = nn.params[2]['n']
+
+            def unmarked_or_all(a, fb):
+                return unmarked(a, fb) or (a.ls == allp and a.op == '!=' and a.rc == 0)
+            tg = []
+            for r in nn.returns():
+                if r.e is not None and cval(unwrap(r.e)) != 0 and any(a.op == '!=' and a.rc == 0 and a.ls == estr(unwrap(r.e)) for (a, _e) in nn.guards(r)):
+                    tg.append(r)
+            if not tg:
+                raise AnalysisBroken('trie_node_next: no guarded node return')
+            bad = [x for x in tg if nn.uncut_path(x, unmarked_or_all) is not None]
+            ctx.check('R8', 'trie:iterate-skips-removed', not bad, bad[0] if bad else tg[0], 'iteration steps over entries marked removed (unless asked for all nodes)',
+                      'a second iterator returns an entry that has been removed')
+
+
+def r9(ctx):
+    prog = ctx.prog
+    bad = []
+    n = 0
+    for f in prog.all_fns():
+        if not f.file.endswith('trie.c'):
+            continue
+        for ev in f.events('STORE'):
+            lf = last_field(ev.lhs)
+            if lf and lf[0] == 'trie_node' and lf[1] in ('refcount', 'value', 'key'):
+                n += 1
+                if ev.rhs is not None and any(x.get('k') == 'mem' and x.get('rec') == 'trie_node' and x.get('f') == lf[1] for x in walk(ev.rhs)) and \
+                        root_var(ev.rhs) is not None and root_var(ev.lhs) is not None and root_var(ev.rhs)['n'] != root_var(ev.lhs)['n']:
+                    bad.append(ev)
+    if n < 4:
+        raise AnalysisBroken('trie.c: only %d stores to refcount/value/key' % n)
+    ctx.check('R9', 'trie:entry-stays-in-its-node', not bad, bad[0] if bad else 'lib/trie.c',
+              '%d stores to a trie node\'s refcount/key/value, none copies them from another node' % n,
+              'an entry (and its reference count, which includes the iterators\' references) is moved to another node: iterators positioned on it are left '
+              'pointing at a node that is no longer that entry and later drop their reference on whatever is stored there')
